@@ -6,6 +6,7 @@ From Coq Require Import List Arith ZArith Lia Bool.
 Import ListNotations.
 From KDB Require Import Util UtilProofs PropDefs PropFlags PropLink PropLinkBasics PropLinkOps PropLinkTheorems PropSim PropGrow PropSimAct PropSimAct2 PropGrowAct.
 From KDB Require PropAbs PropAbsProofs PropAbsAct PropAbsAct2 PropProofs PropCheck PropGrowMore PropMove.
+Module A := PropAbs.
 
 Module AP := PropAbsProofs.
 Module C := PropAbsAct.
@@ -311,10 +312,56 @@ Section GrowAct2.
       unfold values, w1n; cbn [set_props w_props]. rewrite lookup_bind_other by exact Hne. exact V'.
   Qed.
 
+  Lemma grow_reset_b fuel w p w' :
+    SCB w -> COH w -> step1 fn rtl fuel w (PReset p) = (w', None) -> SCB w' /\ COH w'.
+  Proof.
+    intros (Hinv & Hna & Hsi) (s & (R1 & R2 & R3) & HInv) H. pose proof H as H0. cbn [step1] in H.
+    destruct (lookup (w_props w) p) as [pr|] eqn:Hp; [|discriminate H].
+    destruct (pr_updater pr) as [b|] eqn:Hu.
+    2:{ inversion H; subst. split; [exact (conj Hinv (conj Hna Hsi))|]. exists s. split; [exact (conj R1 (conj R2 R3))|exact HInv]. }
+    destruct (destroy_binding w b) as [w2 [ex|]] eqn:Hd; [discriminate H|].
+    destruct (reset_pinv _ _ _ _ _ Hinv Hp Hu Hd) as (Hp2 & Hinv' & Hns & Hb2 & Hbo & Hpr & Hlen). rewrite Hp2 in H. inversion H; subst w'; clear H.
+    set (w' := set_props w2 (bind_key (w_props w2) p (prop_set_updater pr None))) in *.
+    destruct (destroy_binding_pinvg _ _ _ _ _ _ _ _ _ Hinv (fun z => z) Hd) as (_ & _ & _ & _ & _ & _ & _ & _ & _ & Hsl & _).
+    pose proof (PropGrowMore.destroy_binding_get_bind _ _ _ _ Hd) as Gb.
+    assert (Pq : pview w p = Some (psigs_of pr)) by (unfold pview; rewrite Hp; reflexivity).
+    destruct (pi_upd _ _ _ _ _ _ _ Hinv _ _ _ Pq Hu (fun z => z)) as (lsb & Ebw).
+    assert (IO : forall q, imm_of w' q = if Nat.eqb q p then None else imm_of w q).
+    { assert (Gw : forall b', get_bind w' b' = get_bind w2 b') by reflexivity.
+      intros q. unfold imm_of. change (w_props w') with (bind_key (w_props w2) p (prop_set_updater pr None)). rewrite lookup_bind. destruct (Nat.eqb_spec q p) as [->|Hne]; [reflexivity|].
+      rewrite Hpr. destruct (lookup (w_props w) q) as [pr'|] eqn:Hq; [|reflexivity]. destruct (pr_updater pr') as [b'|] eqn:Hu'; [|reflexivity].
+      rewrite Gw, Gb; [reflexivity|]. intros ->.
+      assert (Pq' : pview w q = Some (psigs_of pr')) by (unfold pview; rewrite Hq; reflexivity).
+      destruct (pi_upd _ _ _ _ _ _ _ Hinv _ _ _ Pq' Hu' (fun z => z)) as (ls & Eb). congruence. }
+    set (s' := {| A.env := A.env s; A.tr := fun q => if Nat.eqb q p then None else A.tr s q; A.oof := false |}).
+    assert (Rel' : Rel w' s').
+    { split; [|split; [|reflexivity]].
+      - intros q prq Hq. unfold w' in Hq; cbn [set_props w_props] in Hq. rewrite lookup_bind, Hpr in Hq. cbn [s' A.env].
+        destruct (Nat.eqb_spec q p) as [->|]; [inversion Hq; subst prq; exact (R1 _ _ Hp)|auto].
+      - intros q. cbn [s' A.tr]. rewrite IO. destruct (Nat.eqb q p); [reflexivity|apply R2]. }
+    split.
+    - split; [exact Hinv'|]. split.
+      + assert (PVW : forall p0 vv, pview w p0 = Some vv -> exists vv', pview w' p0 = Some vv' /\ (forall k0, psig vv' k0 = psig vv k0) /\ (ps_updater vv = None -> ps_updater vv' = None)).
+        { intros p0 vv Ev. unfold pview in *. change (w_props w') with (bind_key (w_props w2) p (prop_set_updater pr None)). rewrite lookup_bind.
+          destruct (Nat.eqb_spec p0 p) as [->|Hne].
+          - rewrite Hp in Ev. inversion Ev; subst vv. eexists. split; [reflexivity|]. split; [intros k0; apply psig_set_updater|intros _; reflexivity].
+          - rewrite Hpr. exists vv. auto. }
+        intros t pos ser label a Hs. change (slot_at w2 t pos ser (SObs label (Some a))) in Hs. destruct (Hna t pos ser label a (Hsl _ _ _ _ Hs)) as (tgt & p0 & Ea & Hor).
+        exists tgt, p0. split; [exact Ea|].
+        destruct Hor as [(vv & Ev & Es)|[(vv & Ev & Es) (u & Pu & Uu)]].
+        * left. destruct (PVW _ _ Ev) as (vv' & Ev' & Es' & _). exists vv'. split; [exact Ev'|rewrite Es'; exact Es].
+        * right. destruct (PVW _ _ Ev) as (vv' & Ev' & Es' & Eu'). split; [exists vv'; split; [exact Ev'|rewrite Es'; exact Es]|].
+          exists vv'. split; [exact Ev'|]. apply Eu'. rewrite Pu in Ev. inversion Ev; subst. exact Uu.
+      + intros q x Hx. rewrite IO in Hx. destruct (Nat.eqb q p); [discriminate Hx|eauto].
+    - exists s'. split; [exact Rel'|]. apply (PropGrowMore.Inv_from_parts fn); [exact Hinv'|exact Rel'|].
+      intros q t Ht. cbn [s' A.tr A.env] in *. destruct (Nat.eqb q p); [discriminate Ht|]. destruct (HInv q t Ht) as (A1 & A2 & A3 & _). auto.
+  Qed.
+
   Definition grow_act2_op (w : world) (o : op) : Prop :=
     match o with
     | PNew _ _ => True
     | PBind p _ MImmediate => lookup (w_props w) p = None
+    | PReset _ => True
     | _ => act2_op w o
     end.
 
@@ -323,6 +370,7 @@ Section GrowAct2.
     intros HSC HC Ho H. destruct o; cbn [grow_act2_op] in Ho; try (exact (act2_step fuel w _ w' HSC HC Ho H)).
     - (* PNew *) cbn [step1] in H. destruct (lookup (w_props w) p) eqn:Hp; [discriminate H|]. inversion H; subst w'. apply grow_new_b; assumption.
     - (* PBind *) destruct m; [|destruct Ho]. apply (grow_bind_b fuel w p e w'); assumption.
+    - (* PReset *) apply (grow_reset_b fuel w p w'); assumption.
   Qed.
 
   Fixpoint grow_act2_run_ok (fuel : nat) (w : world) (ops : list op) : Prop :=
